@@ -38,6 +38,8 @@
     result minus status,
     `isExperiment` ............ `evaluate_perm_clauses_result`, `evaluate_insert_dead_rule_result` (segment clauses
                                 allowed); events, flag lookups, outcome: `evaluate_rules_events`
+    any top-level name ........ `evaluate_unreferenced_top`, `evaluate_change_name`, `evaluate_change_anonymous`,
+                                `evaluate_remove_unreferenced_attribute` (section 8; whole `Obs` equal)
     NOT invariant (F6) ........ `clause_order_observable`; `shortcut_observable` for `ShortcutNeutral`
 
   A caveat that the proofs make precise (7): turning a *single `user`* context into a
@@ -2028,6 +2030,364 @@ example :
 end AuditExamples
 
 end Audit
+
+/-! ## 8. Unreferenced built-in attributes (`name`, `anonymous`) and removed attributes
+
+  
+  `C20.lean`, section 6, proves that a change to a custom attribute `name` (relation `AgreeExcept`)
+  is invisible when nothing refers to `name`.  `AgreeExcept` fixes the built-in fields `name` and
+  `anonymous`, so it says nothing about a context whose *name* or *anonymous* flag changes.  Both are
+  ordinary addressable attributes of the Go context (`getTopLevelAddressableAttributeSingleKind`,
+  model: `SCtx.topLevel`), and the property's phrase "adding context attributes that no clause or
+  bucket-by names" covers them as much as a custom attribute.
+
+  This file restates the family with the weaker relation `AgreeTop`: the two individual contexts
+  have the same kind, key and secondary key, and the same *top-level lookup* at every name other
+  than `name` — whatever field that lookup comes from.  Everything in section 6 goes through with
+  it; `AgreeExcept` is the special case (`AgreeExcept.toTop`), and so are
+
+    * `setName`, `setAnonymous` ........ `AgreeTop "name"`, `AgreeTop "anonymous"`
+    * `removeAttr` ..................... `AgreeExcept name` (every entry of that name is dropped, so
+                                          no shadowed value becomes visible)
+
+  Entry-point theorems (whole observation `Obs` of `evaluate`):
+    `evaluate_unreferenced_top`, `evaluate_change_name`, `evaluate_change_anonymous`,
+    `evaluate_remove_unreferenced_attribute`.
+
+  The harness evaluates the same three perturbations on the real code (families
+  `remove-unreferenced-attribute` and `unreferenced-builtin` of the C20 check).
+-/
+
+
+/-- `b` differs from `a` at most in what the top-level name `name` resolves to. -/
+structure AgreeTop (name : String) (a b : SCtx) : Prop where
+  kind : b.kind = a.kind
+  key : b.key = a.key
+  secondary : b.secondary = a.secondary
+  top : ∀ n, n ≠ name → b.topLevel n = a.topLevel n
+
+theorem AgreeExcept.toTop {name : String} {a b : SCtx} (h : AgreeExcept name a b) :
+    AgreeTop name a b :=
+  ⟨h.kind, h.key, h.secondary, fun n hn => topLevel_agree h n hn⟩
+
+theorem AgreeTop.refl (name : String) (sc : SCtx) : AgreeTop name sc sc :=
+  ⟨rfl, rfl, rfl, fun _ _ => rfl⟩
+
+theorem valueForRef_agreeTop {name : String} {a b : SCtx} (h : AgreeTop name a b) (r : Ref)
+    (hr : RefAvoids r name) : b.valueForRef r = a.valueForRef r := by
+  unfold SCtx.valueForRef
+  rcases hr with hr | hr
+  · simp only [hr, if_true]
+  · rw [h.top _ hr]
+
+/-! ### The three perturbations -/
+
+/-- Set (or clear) the name of the individual contexts of kind `k`. -/
+def setName (k : String) (v : Option String) (sc : SCtx) : SCtx :=
+  if sc.kind == k then { sc with name := v } else sc
+
+/-- Set the anonymous flag of the individual contexts of kind `k`. -/
+def setAnonymous (k : String) (v : Bool) (sc : SCtx) : SCtx :=
+  if sc.kind == k then { sc with anonymous := v } else sc
+
+/-- Remove every entry of the custom attribute `name` from the individual contexts of kind `k`. -/
+def removeAttr (k name : String) (sc : SCtx) : SCtx :=
+  if sc.kind == k then { sc with attrs := sc.attrs.filter (fun p => p.1 != name) } else sc
+
+theorem setName_agree (k : String) (v : Option String) (sc : SCtx) :
+    AgreeTop "name" sc (setName k v sc) := by
+  unfold setName
+  split
+  · refine ⟨rfl, rfl, rfl, fun n hn => ?_⟩
+    have hb : (n == "name") = false := by simpa using hn
+    unfold SCtx.topLevel
+    simp only [hb]
+    rfl
+  · exact AgreeTop.refl _ sc
+
+theorem setAnonymous_agree (k : String) (v : Bool) (sc : SCtx) :
+    AgreeTop "anonymous" sc (setAnonymous k v sc) := by
+  unfold setAnonymous
+  split
+  · refine ⟨rfl, rfl, rfl, fun n hn => ?_⟩
+    have hb : (n == "anonymous") = false := by simpa using hn
+    unfold SCtx.topLevel
+    simp only [hb]
+    rfl
+  · exact AgreeTop.refl _ sc
+
+theorem lookup_filter_ne (attrs : List (String × J)) (name n : String) (h : n ≠ name) :
+    (attrs.filter (fun p => p.1 != name)).lookup n = attrs.lookup n := by
+  induction attrs with
+  | nil => rfl
+  | cons p ps ih =>
+    obtain ⟨a, v⟩ := p
+    by_cases ha : a = name
+    · subst ha
+      have hb : (n == a) = false := by simpa using h
+      simp only [List.filter_cons, bne_self_eq_false, Bool.false_eq_true, if_false, List.lookup, hb, ih]
+    · have hne : (a != name) = true := by simpa using ha
+      simp only [List.filter_cons, hne, if_true, List.lookup]
+      cases n == a
+      · exact ih
+      · rfl
+
+theorem removeAttr_agree (k name : String) (sc : SCtx) : AgreeExcept name sc (removeAttr k name sc) := by
+  unfold removeAttr
+  split
+  · exact ⟨rfl, rfl, rfl, rfl, rfl, fun n hn => lookup_filter_ne sc.attrs name n hn⟩
+  · exact AgreeExcept.refl name sc
+
+/-- After the removal the attribute is really gone (the perturbation is not the identity on a
+context that had it). -/
+theorem removeAttr_lookup (k name : String) (sc : SCtx) (hk : (sc.kind == k) = true) :
+    (removeAttr k name sc).attrs.lookup name = none := by
+  unfold removeAttr
+  simp only [hk, if_true]
+  induction sc.attrs with
+  | nil => rfl
+  | cons p ps ih =>
+    obtain ⟨a, v⟩ := p
+    by_cases ha : a = name
+    · subst ha
+      simpa only [List.filter_cons, bne_self_eq_false, Bool.false_eq_true, if_false] using ih
+    · have hne : (a != name) = true := by simpa using ha
+      have hb : (name == a) = false := by simpa using (fun h : name = a => ha h.symm)
+      simp only [List.filter_cons, hne, if_true, List.lookup, hb]
+      exact ih
+
+/-! ### Section 6 of `C20.lean` again, for `AgreeTop` -/
+
+section MapTop
+variable {name : String} {g : SCtx → SCtx} (hg : ∀ sc, AgreeTop name sc (g sc))
+include hg
+
+theorem find_kind_mapTop (k : String) (cs : List SCtx) :
+    (cs.map g).find? (fun sc => sc.kind == k) = (cs.find? (fun sc => sc.kind == k)).map g := by
+  induction cs with
+  | nil => rfl
+  | cons c cs ih =>
+    simp only [List.map_cons, List.find?_cons, (hg c).kind]
+    cases c.kind == k
+    · exact ih
+    · rfl
+
+theorem byKind_mapTop (ctx : Ctx) (k : String) :
+    (mapInd g ctx).byKind k = (ctx.byKind k).map g := by
+  cases ctx with
+  | invalid => rfl
+  | single c => exact find_kind_mapTop hg (normKind k) [c]
+  | multi cs => exact find_kind_mapTop hg (normKind k) cs
+
+theorem keyByKind_mapTop (ctx : Ctx) (k : String) :
+    (mapInd g ctx).keyByKind k = ctx.keyByKind k := by
+  unfold Ctx.keyByKind
+  rw [byKind_mapTop hg]
+  cases ctx.byKind k with
+  | none => rfl
+  | some sc => simp only [Option.map_some, (hg sc).key]
+
+theorem kind_mapTop (ctx : Ctx) : (mapInd g ctx).kind = ctx.kind := by
+  cases ctx with
+  | invalid => rfl
+  | single c => exact (hg c).kind
+  | multi cs => rfl
+
+theorem clauseMatchByKind_mapTop (rx : RegexOracle) (c : Clause) (ctx : Ctx) :
+    clauseMatchByKind rx c (mapInd g ctx) = clauseMatchByKind rx c ctx := by
+  cases ctx with
+  | invalid => rfl
+  | single sc => simp only [clauseMatchByKind, mapInd, Ctx.kind, (hg sc).kind]
+  | multi cs =>
+    simp only [clauseMatchByKind, mapInd, List.any_map]
+    congr 1
+    funext sc
+    simp only [Function.comp, (hg sc).kind]
+
+theorem targetMatch_mapTop (ctx : Ctx) (t : Target) :
+    targetMatch (mapInd g ctx) t = targetMatch ctx t := by
+  unfold targetMatch
+  rw [byKind_mapTop hg]
+  cases ctx.byKind t.contextKind with
+  | none => rfl
+  | some sc => simp only [Option.map_some, (hg sc).key]
+
+theorem anyTargetMatch_mapTop (ctx : Ctx) (f : Flag) :
+    anyTargetMatch (mapInd g ctx) f = anyTargetMatch ctx f := by
+  have : targetMatch (mapInd g ctx) = targetMatch ctx := funext (targetMatch_mapTop hg ctx)
+  unfold anyTargetMatch
+  rw [this]
+
+theorem segLists_mapTop (ctx : Ctx) (s : Segment) :
+    segLists (mapInd g ctx) s = segLists ctx s := by
+  have h1 : segTargetMatch (mapInd g ctx) = segTargetMatch ctx := by
+    funext t; unfold segTargetMatch; rw [keyByKind_mapTop hg]
+  unfold segLists
+  rw [h1, keyByKind_mapTop hg, kind_mapTop hg]
+
+theorem clauseMatchNoSeg_mapTop (rx : RegexOracle) (ctx : Ctx) (c : Clause)
+    (h : c.attr.raw = "kind" ∨ RefAvoids c.attr name) :
+    clauseMatchNoSeg rx (mapInd g ctx) c = clauseMatchNoSeg rx ctx c := by
+  unfold clauseMatchNoSeg
+  rw [clauseMatchByKind_mapTop hg, byKind_mapTop hg]
+  split
+  · rfl
+  · split
+    · rfl
+    · split
+      · rfl
+      · rename_i h1 h2 h3
+        rcases h with h | h
+        · rw [h] at h3; simp at h3
+        · cases ctx.byKind c.contextKind with
+          | none => rfl
+          | some sc => simp only [Option.map_some, valueForRef_agreeTop (hg sc) c.attr h]
+
+theorem computeBucket_mapTop (sk : Bool) (ctx : Ctx) (isExp : Bool) (seed : Option Int)
+    (kind key : String) (attr : Ref) (salt : String)
+    (h : isExp = true ∨ attr.isDefined = false ∨ RefAvoids attr name) :
+    computeBucket sk (mapInd g ctx) isExp seed kind key attr salt =
+      computeBucket sk ctx isExp seed kind key attr salt := by
+  have hin : bucketInput sk (mapInd g ctx) isExp seed kind key attr salt =
+      bucketInput sk ctx isExp seed kind key attr salt := by
+    unfold bucketInput
+    simp only [byKind_mapTop hg]
+    split
+    · rfl
+    · cases ctx.byKind kind with
+      | none => rfl
+      | some sc =>
+        have hv : (g sc).valueForRef (if (isExp || !attr.isDefined) = true then Ref.newLiteral "key" else attr) =
+            sc.valueForRef (if (isExp || !attr.isDefined) = true then Ref.newLiteral "key" else attr) := by
+          split
+          · rw [valueForRef_key, valueForRef_key, (hg sc).key]
+          · rename_i hu
+            rcases h with h | h | h
+            · simp [h] at hu
+            · simp [h] at hu
+            · exact valueForRef_agreeTop (hg sc) attr h
+        simp only [Option.map_some, hv, (hg sc).secondary]
+  unfold computeBucket
+  rw [hin]
+
+end MapTop
+
+section LiftTop
+variable {name : String} {g : SCtx → SCtx} (hg : ∀ sc, AgreeTop name sc (g sc)) (env : Env)
+include hg
+
+theorem clauseOK_of_avoidsTop (c : Clause) (h : ClauseAvoids c name) :
+    ClauseOK env (mapInd g env.ctx) c := by
+  rcases h with h | h
+  · exact .inl h
+  · exact .inr (clauseMatchNoSeg_mapTop hg env.rx env.ctx c h)
+
+theorem vrOK_of_avoidsTop (vr : VariationOrRollout) (h : VRAvoids vr name) :
+    VROK env (mapInd g env.ctx) vr := by
+  rcases h with h | h
+  · exact .inl h
+  · exact .inr (fun _ _ _ => computeBucket_mapTop hg _ _ _ _ _ _ _ _ h)
+
+theorem flagOK_of_avoidsTop (f : Flag) (h : FlagAvoids f name) : FlagOK env (mapInd g env.ctx) f :=
+  ⟨anyTargetMatch_mapTop hg env.ctx f,
+   fun r hr => ⟨fun c hc => clauseOK_of_avoidsTop hg env c ((h.1 r hr).1 c hc),
+                vrOK_of_avoidsTop hg env r.vr (h.1 r hr).2⟩,
+   vrOK_of_avoidsTop hg env _ h.2⟩
+
+theorem segOK_of_avoidsTop (s : Segment) (h : SegAvoids s name) : SegOK env (mapInd g env.ctx) s :=
+  ⟨segLists_mapTop hg env.ctx s, keyByKind_mapTop hg env.ctx _,
+   fun r hr => ⟨fun c hc => clauseOK_of_avoidsTop hg env c ((h r hr).1 c hc),
+     (h r hr).2.imp id (fun hb => fun _ _ _ =>
+        computeBucket_mapTop hg _ _ _ _ _ _ _ _ (.inr hb))⟩⟩
+
+/-- **6 for any top-level name, Spec level.**  Changing what the top-level name `name` resolves to
+— a custom attribute, or the built-in `name` / `anonymous` — in any of the individual contexts does
+not change the result of evaluating `f`, provided no clause and no bucket-by in scope refers to
+`name`. -/
+theorem unreferenced_top
+    (hF : ∀ fl ∈ env.store.flags.map (·.2), FlagAvoids fl name)
+    (hS : ∀ s ∈ env.store.segments.map (·.2), SegAvoids s name)
+    (sf n : Nat) (f : Flag) (hf : FlagAvoids f name) (chain : List String) :
+    Spec.evalFlag sf n (withCtx env (mapInd g env.ctx)) f chain = Spec.evalFlag sf n env f chain :=
+  evalFlag_ctx (fun fl hfl => flagOK_of_avoidsTop hg env fl (hF fl hfl))
+    (fun s hs => segOK_of_avoidsTop hg env s (hS s hs)) sf n f (flagOK_of_avoidsTop hg env f hf) chain
+
+/-- **6 for any top-level name, entry point**: the WHOLE observation of `Evaluator.Evaluate`
+(result with big-segments status, experiment bit, prerequisite events, log lines, flag / segment /
+big-segment lookups) is unchanged. -/
+theorem evaluate_unreferenced_top
+    (hF : ∀ fl ∈ env.store.flags.map (·.2), FlagAvoids fl name)
+    (hS : ∀ s ∈ env.store.segments.map (·.2), SegAvoids s name)
+    (f : Flag) (hf : FlagAvoids f name) :
+    evaluate (withCtx env (mapInd g env.ctx)) f = evaluate env f :=
+  evaluate_ctx (fun fl hfl => flagOK_of_avoidsTop hg env fl (hF fl hfl))
+    (fun s hs => segOK_of_avoidsTop hg env s (hS s hs)) f (flagOK_of_avoidsTop hg env f hf)
+    (mapInd_invalid_iff g env.ctx)
+
+end LiftTop
+
+/-- Setting, changing or clearing the *name* of the individual contexts of kind `k` changes nothing
+observable when nothing in scope refers to the attribute `name`. -/
+theorem evaluate_change_name (env : Env) (k : String) (v : Option String)
+    (hF : ∀ fl ∈ env.store.flags.map (·.2), FlagAvoids fl "name")
+    (hS : ∀ s ∈ env.store.segments.map (·.2), SegAvoids s "name")
+    (f : Flag) (hf : FlagAvoids f "name") :
+    evaluate (withCtx env (mapInd (setName k v) env.ctx)) f = evaluate env f :=
+  evaluate_unreferenced_top (setName_agree k v) env hF hS f hf
+
+/-- Flipping the *anonymous* flag of the individual contexts of kind `k` changes nothing observable
+when nothing in scope refers to the attribute `anonymous`. -/
+theorem evaluate_change_anonymous (env : Env) (k : String) (v : Bool)
+    (hF : ∀ fl ∈ env.store.flags.map (·.2), FlagAvoids fl "anonymous")
+    (hS : ∀ s ∈ env.store.segments.map (·.2), SegAvoids s "anonymous")
+    (f : Flag) (hf : FlagAvoids f "anonymous") :
+    evaluate (withCtx env (mapInd (setAnonymous k v) env.ctx)) f = evaluate env f :=
+  evaluate_unreferenced_top (setAnonymous_agree k v) env hF hS f hf
+
+/-- *Removing* a custom attribute that nothing in scope refers to changes nothing observable (the
+converse direction of `evaluate_add_unreferenced_attribute`). -/
+theorem evaluate_remove_unreferenced_attribute (env : Env) (k name : String)
+    (hF : ∀ fl ∈ env.store.flags.map (·.2), FlagAvoids fl name)
+    (hS : ∀ s ∈ env.store.segments.map (·.2), SegAvoids s name)
+    (f : Flag) (hf : FlagAvoids f name) :
+    evaluate (withCtx env (mapInd (removeAttr k name) env.ctx)) f = evaluate env f :=
+  evaluate_unreferenced_attribute (removeAttr_agree k name) env hF hS f hf
+
+/-! ### Non-vacuity and necessity of the hypothesis -/
+
+/-- The hypotheses are met by a flag with a real clause (on `email`) and the perturbation is not
+the identity. -/
+example : FlagAvoids (ruleFlag [emailClause]) "name" ∧
+    setName "user" (some "n") exUser ≠ exUser := by
+  refine ⟨⟨?_, ?_⟩, ?_⟩
+  · intro r hr
+    simp only [ruleFlag, List.mem_cons, List.not_mem_nil, or_false] at hr
+    subst hr
+    exact ⟨fun c hc => by
+      simp only [List.mem_cons, List.not_mem_nil, or_false] at hc
+      subst hc
+      exact .inr (.inr (.inr (by decide))), .inl (by decide)⟩
+  · exact .inl (by decide)
+  · intro h
+    have := congrArg SCtx.name h
+    simp [setName, exUser] at this
+
+/-- The hypothesis is needed: a reference to `name` does see the change. -/
+theorem name_observable :
+    (setName "user" (some "n") exUser).valueForRef (Ref.newRef "name") ≠
+      exUser.valueForRef (Ref.newRef "name") := by
+  have h1 : (setName "user" (some "n") exUser).valueForRef (Ref.newRef "name") = .str "n" := by
+    rfl
+  have h2 : exUser.valueForRef (Ref.newRef "name") = .null := by rfl
+  rw [h1, h2]
+  intro h
+  cases h
+
+#print axioms evaluate_unreferenced_top
+#print axioms evaluate_change_name
+#print axioms evaluate_change_anonymous
+#print axioms evaluate_remove_unreferenced_attribute
+#print axioms name_observable
 
 end LD.C20
 
